@@ -35,6 +35,17 @@ func init() {
 			return Res{"ok": false, "err": "bad field"}
 		}
 		switch {
+		case a.Has("abs"):
+			// absolute field values chosen by the specification (a time field and, optionally, a second field such as the expires offset)
+			copy(in[off:off+width], a.Bytes("abs"))
+			if a.Has("abs2") {
+				o2 := a.Int("off2")
+				b2 := a.Bytes("abs2")
+				if o2 < 0 || o2+len(b2) > len(in) {
+					return Res{"ok": false, "err": "bad second field"}
+				}
+				copy(in[o2:], b2)
+			}
 		case width == 4:
 			binary.BigEndian.PutUint32(in[off:], uint32(t))
 		case width == 8 && a.Str("unit") == "ms":
